@@ -65,16 +65,10 @@ inductive Selects (r : Reg) (p : Pkt) : Option (Lid × Via) → Prop
   | nobody : ridCand r p = none → midCand r p = none → lookup p.ssrc r.bySsrc = none →
       (¬ ∃ l', UniqueOwner (ptRoutes r p.pt) l') → (¬ ∃ l', UniqueOwner (provRoutes r) l') → Selects r p none
 
-theorem stageRid_eq (r : Reg) (p : Pkt) : stageRid r p = ridCand r p := by
+private theorem stageRid_eq (r : Reg) (p : Pkt) : stageRid r p = ridCand r p := by
   unfold stageRid ridCand; cases extOf p r.ridExt <;> rfl
-theorem stageMid_eq (r : Reg) (p : Pkt) : stageMid r p = midCand r p := by
+private theorem stageMid_eq (r : Reg) (p : Pkt) : stageMid r p = midCand r p := by
   unfold stageMid midCand; cases extOf p r.midExt <;> rfl
-
-theorem uniqueOwner_unique (rs : List Route) (a b : Lid) (ha : UniqueOwner rs a) (hb : UniqueOwner rs b) : a = b := by
-  obtain ⟨hne, h1⟩ := ha
-  cases rs with
-  | nil => exact absurd rfl hne
-  | cons rt rest => exact (h1 rt (by simp)).symm.trans (hb.2 rt (by simp))
 
 /-- **selection_is_priority_spec**: for every registry and every packet the listener (and rule) the
 code's selection block picks is the one the priority specification prescribes, and the
@@ -189,6 +183,41 @@ theorem mid_packet_never_crosses_sections_partial (r : Reg) (p : Pkt) (m : Bytes
     exact Or.inl ⟨rfl, rfl, by rw [← stageRid_eq]; exact hr⟩
 
 example : extOf pktB regB.midExt = some [0x30] ∧ lookup [0x30] regB.byMid = some 0 := by decide
+
+/-! ### route pruning -/
+
+/-- **open_routes_never_pruned**: registering a new listener prunes only routes whose channel is closed —
+the route of every open listener survives unchanged; a listener that already has a route never
+triggers pruning at all; and the only route ever added is the new listener's empty one. -/
+theorem open_routes_never_pruned (r : Reg) (l : Lid) :
+    (∀ rt ∈ r.routes, r.isClosed rt.lid = false → rt ∈ ensureRoute r l) ∧
+    ((∃ rt ∈ r.routes, rt.lid = l) → ensureRoute r l = r.routes) ∧
+    (∀ rt ∈ ensureRoute r l, rt ∈ r.routes ∨ rt = { mid := none, pts := [], lid := l, provisional := false }) := by
+  refine ⟨?_, ?_, ?_⟩
+  · intro rt hrt hopen
+    unfold ensureRoute
+    split
+    · exact hrt
+    · simp only [List.mem_append, List.mem_filter]
+      left; exact ⟨hrt, by simpa [Reg.isClosed] using hopen⟩
+  · rintro ⟨rt, hrt, hl⟩
+    unfold ensureRoute
+    have : (r.routes.any fun rt => decide (rt.lid = l)) = true := by
+      simp only [List.any_eq_true]; exact ⟨rt, hrt, by simpa using hl⟩
+    simp [this]
+  · intro rt hrt
+    unfold ensureRoute at hrt
+    split at hrt
+    · exact Or.inl hrt
+    · simp only [List.mem_append, List.mem_filter, List.mem_singleton] at hrt
+      rcases hrt with h | h
+      · exact Or.inl h.1
+      · exact Or.inr h
+
+/-! `std::str::from_utf8` acceptance is modelled strictly (é; 0xFF; overlong C0 80; surrogate ED A0 80; > U+10FFFF) -/
+example : utf8Valid [0xC3, 0xA9] = true ∧ utf8Valid [0xFF] = false ∧ utf8Valid [0xC0, 0x80] = false ∧
+    utf8Valid [0xED, 0xA0, 0x80] = false ∧ utf8Valid [0xF4, 0x90, 0x80, 0x80] = false ∧
+    utf8Valid [0xF0, 0x9F, 0x98, 0x80] = true := by decide
 
 /-! ### SSRC bindings -/
 
@@ -417,24 +446,6 @@ fixed SSRC, else source SSRC + the rule's offset (wrapping), else (no rule) the 
 theorem bridge_new_stream_ssrc (c : Cfg) (ss : Streams) (p : Pkt) (a : UInt16) (b : UInt32)
     (h : sget p.ssrc ss = none) : (forward c ss p a b).2.pkt.ssrc = newOutSsrc c p := by
   rw [forward_out_ssrc]; simp [cur, h]
-
-/-- `p` arrives in order for the stream state `st` (first packet, or not older than the last in-order one) -/
-def InOrder (st : Stream) (p : Pkt) : Prop :=
-  match st.lastSrcTs with
-  | none => True
-  | some last => p.ts - last < halfRange
-
-/-- after an in-order packet the stream remembers that packet's timestamp -/
-theorem tsUpdate_inorder_last (o : Opts) (st : Stream) (p : Pkt) (h : InOrder st p) :
-    (tsUpdate o st p.ts).1.lastSrcTs = some p.ts := by
-  unfold tsUpdate
-  unfold InOrder at h
-  split
-  · rename_i last hl
-    rw [hl] at h
-    simp at h
-    simp [h]
-  · split <;> rfl
 
 /-- **bridge_ts_delta_preserved**: take any in-order packet `p1` of a source and the NEXT packet `p2`
 of that source, with arbitrarily many packets of other sources in between.  Unless `p2` jumps
